@@ -66,7 +66,7 @@ JOBS["C10"] = [
     H("knownreplay", "beaconnet", "^TestC10KnownFindingReplay$", {"shards": 1, "checks": 1, "timeout": 300}),
     H("sync", "beaconnet", "^TestC10Sync$", {"shards": 7, "checks": 25, "timeout": 1200}, {"shards": 14, "checks": 400, "timeout": 3400}),
     H("checkrepair", "beaconnet", "^TestC10CheckRepair$", {"shards": 7, "checks": 40, "timeout": 1200}, {"shards": 14, "checks": 600, "timeout": 3400}),
-    I("follow", "internal/core", "^TestVerifC10Follow$", {"shards": 6, "checks": 4, "timeout": 1500}, {"shards": 14, "checks": 40, "timeout": 3400}),
+    I("follow", "internal/core", "^TestVerifC10Follow$", {"shards": 10, "checks": 6, "timeout": 1500}, {"shards": 14, "checks": 40, "timeout": 3400}),
 ]
 
 JOBS["C11"] = [
